@@ -598,7 +598,8 @@ where
         + VecZnxRshTmpBytes
         + VecZnxLshTmpBytes
         + VecZnxLshAssign<BE>
-        + VecZnxLsh<BE>,
+        + VecZnxLsh<BE>
+        + VecZnxZero,
 {
     fn glwe_shift_tmp_bytes(&self) -> usize {
         self.vec_znx_rsh_tmp_bytes().max(self.vec_znx_lsh_tmp_bytes())
@@ -663,8 +664,13 @@ where
         assert!(res.rank() >= a.rank());
 
         let base2k: usize = res.base2k().into();
-        for i in 0..res.rank().as_usize() + 1 {
+        let a_cols: usize = a.rank().as_usize() + 1;
+        for i in 0..a_cols {
             self.vec_znx_lsh(base2k, k, res.data_mut(), i, a.data(), i, scratch);
+        }
+        // columns that `a` does not have are zero (a lower-rank operand, e.g. a plaintext)
+        for i in a_cols..res.rank().as_usize() + 1 {
+            self.vec_znx_zero(res.data_mut(), i);
         }
     }
 
@@ -689,7 +695,7 @@ where
         assert!(res.rank() >= a.rank());
 
         let base2k: usize = res.base2k().into();
-        for i in 0..res.rank().as_usize() + 1 {
+        for i in 0..a.rank().as_usize() + 1 {
             self.vec_znx_lsh_add_into(base2k, k, res.data_mut(), i, a.data(), i, scratch);
         }
     }
@@ -715,7 +721,7 @@ where
         assert!(res.rank() >= a.rank());
 
         let base2k: usize = res.base2k().into();
-        for i in 0..res.rank().as_usize() + 1 {
+        for i in 0..a.rank().as_usize() + 1 {
             self.vec_znx_lsh_sub(base2k, k, res.data_mut(), i, a.data(), i, scratch);
         }
     }
